@@ -172,6 +172,276 @@ pub fn awkward_val(v: &Val) -> bool {
     }
 }
 
+// ---------------------------------------------------------------------------
+// Typed dictionaries: values that look like the real-world content of a
+// variable (a reader that "understands" a field - a path, a package name, a
+// URL, a date, a number - and re-renders it would change some of them).
+// All are plain text to pkg_summary: they must survive verbatim.
+// ---------------------------------------------------------------------------
+
+const T_BUILD_DATE: &[&str] = &[
+    "2019-08-12 15:58:02 +0100", "2024-02-29 23:59:60 +0000", "2024-01-01 00:00:00 -1200",
+    "2019-08-12", "2019-08-12T15:58:02Z", "2019-08-12T15:58:02+01:00", "Mon Aug 12 15:58:02 BST 2019",
+    "1565621882", "0000-00-00 00:00:00 +0000", "1970-01-01 00:00:00 +0000", "2038-01-19 03:14:08 +0000",
+    "9999-12-31 23:59:59 +1400", "2019-8-1 5:8:2 +0100", "2019-08-12  15:58:02  +0100", "12/08/2019",
+    "20190812155802Z", "2019-08-12 15:58:02.123456 +0100", "-0001-01-01 00:00:00 +0000",
+    "2019-08-12 15:58:02 +01:00", "2019-08-12 15:58:02 UTC", "2019-08-12 15:58:02",
+];
+const T_CATEGORIES: &[&str] = &[
+    "devel pkgtools", "devel", "devel  pkgtools", "devel\tpkgtools", "devel devel", "www devel archivers",
+    "pkgtools devel", "Devel", "devel,pkgtools", "local/custom", "x11 x11", "perl5 devel", "devel ", " devel",
+];
+const T_COMMENT: &[&str] = &[
+    "This is a test", "A \"quoted\" comment", "It's a test", "Trailing period.", "comment # with hash",
+    "  leading blanks", "trailing blanks  ", "tab\there", "$HOME ${PKGNAME} $(id) `id`", "100% pure",
+    "back\\slash", "ends with backslash\\", "<b>html</b> &amp; entities", "\u{fc}mlaut \u{f1} \u{65e5}\u{672c}\u{8a9e}",
+    "e\u{301} vs \u{e9}", "very   spaced   out", "-starts with dash", "A", "line one\\nline two",
+    "Library for foo (version 2)", "foo: the bar", "a;b|c&d",
+];
+const T_PATTERN: &[&str] = &[
+    "dep-pkg2>=2.0", "cfl-pkg1-[0-9]*", "foo>=1.0<2.0", "foo<2", "foo-1.0{,nb[0-9]*}", "{foo,bar}-[0-9]*",
+    "foo-1.[0-9]*", "foo-*", "foo", "foo-1.0", "foo-1.0nb1", "foo>=1.0nb0", "foo>1.0alpha", "py311-foo-[0-9]*",
+    "p5-Foo-Bar>=0.01", "foo>=1.0:../../devel/foo", "../../devel/foo", "foo-[0-9]*:../../devel/foo",
+    "foo>=01.00", "foo >= 1.0", "Foo-[0-9]*", "foo>=1.0,bar>=2", "foo-[^0-9]*", "foo>=", ">=1.0", "foo-",
+    "-1.0", "foo--1.0", "{", "}", "foo-{1,2", "foo>=1.0<", "libfoo.so.1", "foo-[0-9]*{,nb*}", "foo<=1.0",
+    "foo==1.0", "foo!=1.0", "foo-1.0nb0", "foo>=1.0.0",
+];
+const T_DESCRIPTION: &[&str] = &[
+    "This is a test", "  indented line", "trailing  ", "\tTabbed", "* bullet", "- dash", "1. numbered",
+    "http://example.com/", "Line with = sign", ".", "..", "a\\", "<html>", "#", "# heading",
+    "A fairly long paragraph line that goes on and on up to about eighty characters.", "\u{fc}n\u{ef}c\u{f6}d\u{e9}",
+    "e\u{301}", "    ", "last line without period", "===", "---", "\"", "'", "end.", "  ", "\\n",
+];
+const T_FILE_CKSUM: &[&str] = &[
+    "SHA1 a4801e9b26eeb5b8bd1f54bac1c8e89dec67786a", "SHA1 A4801E9B26EEB5B8BD1F54BAC1C8E89DEC67786A",
+    "sha1 a4801e9b26eeb5b8bd1f54bac1c8e89dec67786a", "RMD160 9c1185a5c5e9fc54612808977ee8f548b2258d31",
+    "a4801e9b26eeb5b8bd1f54bac1c8e89dec67786a", "SHA1  a4801e9b26eeb5b8bd1f54bac1c8e89dec67786a",
+    "SHA1 (testpkg-1.0.tgz) = a4801e9b26eeb5b8bd1f54bac1c8e89dec67786a", "SHA1:a4801e9b", "SHA1=a4801e9b",
+    "MD5 d41d8cd98f00b204e9800998ecf8427e", "SHA1 ", "SHA1", "0", "SHA1 0000000000000000000000000000000000000000",
+    "SHA512 cf83e1357eefb8bdf1542850d66d8007d620e4050b5715dc83f4a921d36ce9ce47d0d13c5d85f2b0ff8318d2877eec2f63b931bd47417a81a538327af927da3e",
+];
+const T_FILE_NAME: &[&str] = &[
+    "testpkg-1.0.tgz", "x-1.0.tgz", "testpkg-1.0.tbz", "testpkg-1.0.txz", "testpkg-1.0.tar.gz", "testpkg-1.0",
+    "testpkg-1.0.TGZ", "All/testpkg-1.0.tgz", "./testpkg-1.0.tgz", "../testpkg-1.0.tgz",
+    "/packages/All/testpkg-1.0.tgz", "testpkg-1.0.tgz.tgz", ".tgz", "tgz", "test pkg-1.0.tgz",
+    "testpkg-1.0nb2.tgz", "testpkg.tgz", "\u{e9}-1.0.tgz", "testpkg-1.0.tgz/", "testpkg-1.0..tgz", "a.tgz",
+];
+const T_HOMEPAGE: &[&str] = &[
+    "https://docs.rs/pkgsrc/", "https://docs.rs/pkgsrc", "http://example.com", "http://example.com/",
+    "HTTP://EXAMPLE.COM/Path", "https://example.com:443/", "http://example.com:80/",
+    "https://example.com/a/../b/./c", "https://example.com//double//slash", "https://example.com/?q=a=b&c=d",
+    "https://example.com/#frag", "https://example.com/a%20b%2Fc", "https://example.com/a b",
+    "https://user:pw@example.com/", "https://xn--bcher-kva.example/", "https://b\u{fc}cher.example/",
+    "ftp://ftp.netbsd.org/pub/", "example.com", "//example.com/", "mailto:joe@example.com",
+    "https://[::1]:8080/", "file:///etc/passwd", "https://example.com/~user/", "https://example.com/?",
+    "https://EXAMPLE.com", "<https://example.com/>", "https://example.com/%7Euser/", "https://example.com./",
+];
+const T_LICENSE: &[&str] = &[
+    "apache-2.0 OR modified-bsd", "modified-bsd", "gnu-gpl-v2 AND gnu-lgpl-v2.1", "(mit OR apache-2.0) AND isc",
+    "mit or isc", "MIT", "apache-2.0  OR  modified-bsd", "( mit )", "mit AND (isc OR (zlib AND 2-clause-bsd))",
+    "public-domain", "gnu-gpl-v3 # comment", "mit AND", "OR", "no-profit no-commercial-use", "${LICENSE}",
+    "generic-nonlicense", "mit AND mit", "isc OR mit", "((mit))", "mit AND isc AND zlib",
+];
+const T_MACHINE_ARCH: &[&str] = &[
+    "x86_64", "aarch64", "i386", "amd64", "X86_64", "x86-64", "earmv7hf", "sparc64", "powerpc", "mips64el",
+    "noarch", "x86_64 i386", "arm64", "i686",
+];
+const T_OPSYS: &[&str] = &[
+    "Darwin", "NetBSD", "SunOS", "Linux", "netbsd", "NETBSD", "DragonFly", "GNU/kFreeBSD", "Cygwin", "Minix",
+    "FreeBSD", "OpenBSD", "Mac OS X",
+];
+const T_OS_VERSION: &[&str] = &[
+    "18.7.0", "9.3", "10.0_STABLE", "9.99.82", "5.11", "5.15.0-91-generic", "10", "010", "9.0", "9.00", "1.10",
+    "1.1", "0", "-1", "9.3_RC1", "18.7.0.0", "18.07.0", "1e3", "0x10", "+5", "9.", ".9", "10.0-RELEASE-p1",
+];
+const T_PKG_OPTIONS: &[&str] = &[
+    "inet6 ssl", "ssl inet6", "inet6", "-inet6 ssl", "inet6  ssl", "inet6 inet6", "inet6,ssl", "INET6",
+    "a b c d e f g h", "x11 -x11", "+ssl", "ssl\tinet6", "z a m",
+];
+const T_PKGNAME: &[&str] = &[
+    "testpkg-1.0", "foo-1.0nb1", "foo-1.0nb0", "foo-1.0nb", "foo-1.0nb01", "foo-bar-2.3.4", "foo-bar-baz-1",
+    "foo-1", "foo", "-1.0", "foo-", "-", "foo--1.0", "-foo-1.0", "foo-1.0-", "foo-1.0.tgz", "foo-1.0nb2.tgz",
+    "p5-Foo-Bar-0.01", "py311-foo-1.0", "foo-1.0alpha2", "foo-1.0rc1", "foo-1.0_1", "foo-20240101", "foo-1.0pl2",
+    "foo+bar-1.0", "foo.bar-1.0", "foo_bar-1.0", "Foo-1.0", "FOO-1.0", "foo-01.00", "foo 1.0", "foo-1.0nb1nb2",
+    "foo-nb1", "libnbcompat-20230904", "foo-1.0nb1-2", "foo>=1.0", "foo-[0-9]*", "\u{e9}-1.0", "foo-1.0\u{e9}",
+    "foo-1-0", "1.0", "foo-v1.0", "a-0", "foo-1.0.0", "foo-1.00", "foo-1.0nb00", "foo-0nb0", "foo-1.0NB1",
+    "foo-1.0.tbz", "foo-1.0.", "foo-.1",
+];
+const T_PKGPATH: &[&str] = &[
+    "pkgtools/testpkg", "cat/pkg", "../../cat/pkg", "../../pkgtools/testpkg", "../../cat/pkg/", "cat/pkg/",
+    "./cat/pkg", "../cat/pkg", "../../../cat/pkg", "../../cat", "../../cat/pkg/sub", "/usr/pkgsrc/cat/pkg",
+    "/cat/pkg", "cat//pkg", "cat/./pkg", "cat/../cat/pkg", "cat", "cat/", "/", "Cat/Pkg", "cat\\pkg", "wip/pkg",
+    "../../wip/pkg", "local/../cat/pkg", "cat/pkg/Makefile", "../../cat/pkg/Makefile", "cat/p k g",
+    "../..//cat/pkg", "..\\..\\cat\\pkg", "cat/pkg:option", "~/cat/pkg", "$PKGSRCDIR/cat/pkg", "../../cat/\u{e9}",
+    "../../", "../..", "..", "../../devel/p5-Foo-Bar", "devel/py-foo", "../../cat/pkg/.", "./../../cat/pkg",
+    "../../cat/./pkg", "../../cat/pkg/..", "../../CAT/PKG", "../.././cat/pkg",
+];
+const T_PKGTOOLS_VERSION: &[&str] = &[
+    "20091115", "20210410", "020091115", "2009-11-15", "20091115nb1", "0", "-1", "1.0", "99999999999999999999",
+    "9223372036854775808", "+20091115", "2.0091115e7", "0x1328F1B", "20,091,115", "\u{ff12}\u{ff10}\u{ff10}\u{ff19}",
+    "20091115.0", "00000000",
+];
+const T_LIBPATH: &[&str] = &[
+    "/opt/pkg/lib/libfoo.dylib", "/usr/pkg/lib/libfoo.so.1", "/usr/pkg/lib/libfoo.so.1.2.3",
+    "/usr/pkg/lib/../lib/libfoo.so", "/usr/pkg/lib//libfoo.so", "/usr/pkg/lib/./libfoo.so", "/usr/pkg/lib/",
+    "/usr/pkg/lib", "lib/libfoo.so", "./lib/libfoo.so", "../lib/libfoo.so", "libfoo.so", "/usr/pkg/lib/lib foo.so",
+    "/", "//", "/usr/pkg/lib/lib\u{e9}.so", "@rpath/libfoo.dylib", "@executable_path/../lib/libfoo.dylib",
+    "/System/Library/Frameworks/Foo.framework/Versions/A/Foo", "C:\\lib\\foo.dll", "/usr/lib/libc.so.12",
+    "/usr/pkg/lib/libfoo.so.01", "/usr/pkg/LIB/libfoo.so",
+];
+
+/// The dictionary of plausible real-world values of one variable.
+pub fn typed_dict(var: usize) -> &'static [&'static str] {
+    match var {
+        os::BUILD_DATE => T_BUILD_DATE,
+        os::CATEGORIES => T_CATEGORIES,
+        os::COMMENT => T_COMMENT,
+        os::CONFLICTS | os::DEPENDS | os::SUPERSEDES => T_PATTERN,
+        os::DESCRIPTION => T_DESCRIPTION,
+        os::FILE_CKSUM => T_FILE_CKSUM,
+        os::FILE_NAME => T_FILE_NAME,
+        os::HOMEPAGE => T_HOMEPAGE,
+        os::LICENSE => T_LICENSE,
+        os::MACHINE_ARCH => T_MACHINE_ARCH,
+        os::OPSYS => T_OPSYS,
+        os::OS_VERSION => T_OS_VERSION,
+        os::PKG_OPTIONS => T_PKG_OPTIONS,
+        os::PKGNAME => T_PKGNAME,
+        os::PKGPATH | os::PREV_PKGPATH => T_PKGPATH,
+        os::PKGTOOLS_VERSION => T_PKGTOOLS_VERSION,
+        os::PROVIDES | os::REQUIRES => T_LIBPATH,
+        _ => &[],
+    }
+}
+
+/// Tokens that are special to *some* format or tool (numbers, booleans,
+/// quoting, escapes, comment markers, path prefixes, invisible characters,
+/// case-folding and normalisation traps) - plain text to pkg_summary.
+pub const T_GENERIC: &[&str] = &[
+    "0", "1", "-1", "007", "+5", "1.0", "1.10", "1e3", "0x10", "12345678901234567890", "9223372036854775807",
+    "-9223372036854775808", "-0", "1_000", "NaN", "inf", "true", "false", "yes", "no", "null", "None", "nil",
+    "undefined", "\"\"", "''", "\"quoted\"", "'single'", "`back`", "\\", "\\n", "a\\nb", "\\t", "\\\\", "a\\",
+    "\\x41", "\\u00e9", "%20", "%", "%s", "%d", "%%", "{}", "{0}", "${VAR}", "$VAR", "$(cmd)", "$$", "#",
+    "#comment", "a #b", "//", "/* c */", ";", "--", "&amp;", "&", "<", ">", "<x>", "|", "*", "?", "[a]", "!", "@",
+    "^", "\u{feff}", "\u{feff}x", "x\u{feff}", "\u{feff}\u{feff}", "./", "./x", "../", "../../", "../../x", "..",
+    ".", "/", "~", "-", "--x", "+", "+=", ":=", "?=", "!=", ":", "a:b", "\u{df}", "\u{130}", "\u{131}", "\u{1c5}",
+    "\u{fb01}", "\u{1e9e}", "\u{212a}", "\u{17f}", "e\u{301}", "\u{1112}\u{1161}\u{11ab}", "a\u{200b}b", "\u{200b}",
+    "\u{200d}", "\u{2060}", "\u{ad}", "\u{200f}", "\u{202e}abc", "\u{a0}x", "x\u{a0}", "\u{3000}x", "\u{2000}x",
+    "x\u{2003}", "\u{1}", "\u{7f}", "\u{1b}[31m", "\u{8}", "x\u{0}y",
+];
+
+/// One value from the per-variable dictionary (2/3) or from the generic
+/// tokens and the 23 variable names themselves (1/3).
+pub fn typed_base(r: &mut Rng, var: usize) -> String {
+    let d = typed_dict(var);
+    if !d.is_empty() && r.chance(2, 3) {
+        return pk(r, d).to_string();
+    }
+    match r.below(8) {
+        0 => VARS[r.below(NVARS)].name.to_string(),
+        1 => format!("{}=", VARS[r.below(NVARS)].name),
+        _ => pk(r, T_GENERIC).to_string(),
+    }
+}
+
+pub const NDECOR: usize = 26;
+
+/// Decorate a dictionary value the way a careless producer (or a careful
+/// normaliser's input) would: decoration 0 is the identity.
+pub fn decorate(v: &str, k: usize) -> String {
+    match k % NDECOR {
+        0 => v.to_string(),
+        1 => format!("\u{feff}{v}"),
+        2 => format!("./{v}"),
+        3 => format!("../../{v}"),
+        4 => format!("{v}/"),
+        5 => format!("{v}.tgz"),
+        6 => format!("{v} "),
+        7 => format!(" {v}"),
+        8 => v.to_uppercase(),
+        9 => v.to_lowercase(),
+        10 => format!("\"{v}\""),
+        11 => format!("{v}{v}"),
+        12 => format!("{v}\\"),
+        13 => format!("/{v}"),
+        14 => v.replace(' ', "  "),
+        15 => format!("{v}\u{a0}"),
+        16 => format!("\u{a0}{v}"),
+        17 => format!("\u{200b}{v}"),
+        18 => format!("{v}nb0"),
+        19 => format!("{v}-"),
+        20 => format!("-{v}"),
+        21 => format!("{v}="),
+        22 => format!("={v}"),
+        23 => format!("{v}\t"),
+        24 => format!("{v} {v}"),
+        _ => format!("{v}\u{feff}"),
+    }
+}
+
+/// A typed value: mostly undecorated.
+pub fn typed_value(r: &mut Rng, var: usize) -> String {
+    let b = typed_base(r, var);
+    if r.chance(2, 3) {
+        b
+    } else {
+        decorate(&b, r.range(1, NDECOR - 1))
+    }
+}
+
+/// Long values whose length sits around a power of two or another
+/// plausible fixed limit, built from characters of one width at a chosen
+/// byte alignment, so that a byte index chosen without regard to character
+/// boundaries falls inside a character.
+pub const LIMITS: [usize; 12] = [64, 80, 100, 128, 255, 256, 512, 1000, 1024, 2048, 4096, 8192];
+
+/// `len` bytes (rounded down to whole characters, at least one) of
+/// `width`-byte characters after `lead` ASCII bytes.
+pub fn aligned_text(r: &mut Rng, width: usize, lead: usize, len: usize) -> String {
+    let mut s = String::with_capacity(len + 4);
+    for k in 0..lead {
+        s.push((b'a' + (k % 26) as u8) as char);
+    }
+    loop {
+        let c: &str = match width {
+            1 => pk(r, &["a", "Z", "0", "-", ".", "_", "x"]),
+            2 => pk(r, &["\u{e9}", "\u{fc}", "\u{df}", "\u{3a9}", "\u{436}"]),
+            3 => pk(r, &MB3),
+            4 => pk(r, &MB4),
+            _ => match r.below(4) {
+                0 => pk(r, &["a", "b", " ", "-"]),
+                1 => pk(r, &["\u{e9}", "\u{fc}", "\u{df}", "\u{3a9}", "\u{436}"]),
+                2 => pk(r, &MB3),
+                _ => pk(r, &MB4),
+            },
+        };
+        if s.len() + c.len() > len && s.len() > lead {
+            break;
+        }
+        s.push_str(c);
+        if s.len() >= len {
+            break;
+        }
+    }
+    s
+}
+
+/// A long text without CR/LF and without `=`: width 1-4 or 0 (mixed), any
+/// alignment, length near one of LIMITS (or up to `max`).
+pub fn long_text(r: &mut Rng, max: usize) -> String {
+    let width = *r.pick(&[0usize, 2, 3, 4, 4, 3, 1]);
+    let lead = r.below(5);
+    let len = match r.below(4) {
+        0 => r.range(150, max.max(151)),
+        _ => {
+            let l = *r.pick(&LIMITS);
+            let l = if l + 8 > max { max.saturating_sub(8).max(20) } else { l };
+            l + r.below(13) - 4
+        }
+    };
+    aligned_text(r, width, lead, len)
+}
+
 pub fn size(r: &mut Rng) -> i64 {
     match r.below(12) {
         0 => 0,
@@ -194,11 +464,48 @@ pub fn list(r: &mut Rng) -> Vec<String> {
     (0..n).map(|_| value(r)).collect()
 }
 
+/// A value for one particular variable: the awkward generic values mixed
+/// with the variable's typed dictionary and, rarely, a long value.
+pub fn value_for(r: &mut Rng, var: usize) -> String {
+    match r.below(64) {
+        0..=17 => typed_value(r, var),
+        18 => long_text(r, 1200),
+        _ => value(r),
+    }
+}
+
+/// Line list of length 1-4 for one variable; one time in six a member is
+/// repeated (a reader that sorts or de-duplicates lists would change it).
+pub fn list_for(r: &mut Rng, var: usize) -> Vec<String> {
+    let n = r.range(1, 4);
+    let mut l: Vec<String> = (0..n).map(|_| value_for(r, var)).collect();
+    if r.chance(1, 6) {
+        let from = r.below(l.len());
+        let at = r.range(0, l.len());
+        let dup = l[from].clone();
+        l.insert(at, dup);
+    }
+    l
+}
+
 pub fn val_for(r: &mut Rng, var: usize) -> Val {
     match VARS[var].kind {
-        Kind::S => Val::S(value(r)),
+        Kind::S => Val::S(value_for(r, var)),
         Kind::I => Val::I(size(r)),
-        Kind::A => Val::A(list(r)),
+        Kind::A => Val::A(list_for(r, var)),
+    }
+}
+
+/// Harness self-test: no dictionary value may contain a line break (a
+/// generator bug must stop the harness, not be reported against the library).
+pub fn selfcheck_dicts() {
+    for var in 0..NVARS {
+        for v in typed_dict(var).iter().chain(T_GENERIC.iter()) {
+            for k in 0..NDECOR {
+                let d = decorate(v, k);
+                assert!(!d.contains(['\n', '\r']), "harness bug: dictionary value with a line break: {d:?}");
+            }
+        }
     }
 }
 
@@ -312,7 +619,7 @@ fn ops_for(r: &mut Rng, var: usize, target: &Val) -> Vec<Op> {
             Kind::A if r.chance(1, 2) => {
                 // junk built by pushing: must be wiped by a later set
                 for _ in 0..r.range(1, 2) {
-                    ops.push(Op::Push(var, value(r)));
+                    ops.push(Op::Push(var, value_for(r, var)));
                 }
             }
             _ => {
@@ -396,6 +703,131 @@ pub fn replay_history(ops: &[Op]) -> Entry {
     e
 }
 
+/// Calls that only observe an entry.  Interleaved with the mutating calls
+/// they must change nothing - and what they show must be the entry as it is
+/// at that moment (an implementation that remembers what it printed or
+/// derived, and forgets to drop that on some mutating path, fails here).
+#[derive(Clone, Copy, Debug, PartialEq, Eq)]
+pub enum Obs {
+    /// `to_string()`, compared with the model at this point
+    Print,
+    /// `format!("{}")` twice
+    PrintTwice,
+    /// all 23 getters
+    Getters,
+    IsCompleted,
+    /// continue on a clone; the original must still show the old state at the end
+    CloneContinue,
+    /// clone, print the clone, drop it
+    CloneDrop,
+    /// `{:?}`, pkgbase(), pkgversion(), description_as_str(): called, not compared
+    Derived,
+    /// move the entry into a SummaryStream, print the stream, move it back
+    StreamPrint,
+}
+
+pub const OBS_ALL: [Obs; 8] = [
+    Obs::Print,
+    Obs::PrintTwice,
+    Obs::Getters,
+    Obs::IsCompleted,
+    Obs::CloneContinue,
+    Obs::CloneDrop,
+    Obs::Derived,
+    Obs::StreamPrint,
+];
+
+impl Obs {
+    pub fn name(self) -> &'static str {
+        match self {
+            Obs::Print => "print",
+            Obs::PrintTwice => "print_twice",
+            Obs::Getters => "getters",
+            Obs::IsCompleted => "is_completed",
+            Obs::CloneContinue => "clone_continue",
+            Obs::CloneDrop => "clone_drop",
+            Obs::Derived => "derived",
+            Obs::StreamPrint => "stream_print",
+        }
+    }
+}
+
+#[derive(Clone, Debug, PartialEq, Eq)]
+pub enum Step {
+    Mut(Op),
+    Obs(Obs),
+}
+
+impl Step {
+    pub fn show(&self) -> String {
+        match self {
+            Step::Mut(op) => op.show(),
+            Step::Obs(o) => format!("<{}>", o.name()),
+        }
+    }
+}
+
+#[derive(Clone, Copy, Debug, PartialEq, Eq)]
+pub enum ObsMode {
+    /// no observation before the end
+    None,
+    /// an observation in about every fifth gap
+    Sparse,
+    /// a print after every mutating call, other observations sprinkled in
+    Dense,
+    /// an observation directly before every push_* and after every set_* of
+    /// a multi-line variable
+    AroundLists,
+}
+
+fn any_obs(r: &mut Rng) -> Obs {
+    match r.below(12) {
+        0..=3 => Obs::Print,
+        4 => Obs::PrintTwice,
+        5 | 6 => Obs::Getters,
+        7 => Obs::IsCompleted,
+        8 => Obs::CloneContinue,
+        9 => Obs::CloneDrop,
+        10 => Obs::Derived,
+        _ => Obs::StreamPrint,
+    }
+}
+
+/// Interleave observation calls with a history.
+pub fn observed(r: &mut Rng, ops: &[Op], mode: ObsMode) -> Vec<Step> {
+    let mut out = Vec::with_capacity(ops.len() * 2);
+    for op in ops {
+        let is_list = VARS[op.var()].kind == Kind::A;
+        match mode {
+            ObsMode::None => {}
+            ObsMode::Sparse => {
+                if r.chance(1, 5) {
+                    out.push(Step::Obs(any_obs(r)));
+                }
+            }
+            ObsMode::Dense => {
+                if r.chance(1, 4) {
+                    out.push(Step::Obs(any_obs(r)));
+                }
+            }
+            ObsMode::AroundLists => {
+                if matches!(op, Op::Push(..)) {
+                    out.push(Step::Obs(any_obs(r)));
+                }
+            }
+        }
+        out.push(Step::Mut(op.clone()));
+        match mode {
+            ObsMode::Dense => out.push(Step::Obs(Obs::Print)),
+            ObsMode::AroundLists if is_list && matches!(op, Op::Set(..)) => {
+                out.push(Step::Obs(any_obs(r)));
+            }
+            _ => {}
+        }
+    }
+    out
+}
+
 // ---------------------------------------------------------------------------
 // Entry texts (C08): any subset / order / repetition, injected faults
 // ---------------------------------------------------------------------------
@@ -403,7 +835,7 @@ pub fn replay_history(ops: &[Op]) -> Entry {
 pub fn line_for(r: &mut Rng, var: usize) -> Line {
     let text = match VARS[var].kind {
         Kind::I => size(r).to_string(),
-        _ => value(r),
+        _ => value_for(r, var),
     };
     Line { var, text }
 }
@@ -493,6 +925,112 @@ pub const BAD_NAMES: [(&str, &str); 20] = [
     ("\tCOMMENT", "padded"),
     ("SIZE_PKG ", "padded"),
 ];
+
+/// Characters that do not show (or show as a blank) when a text is viewed:
+/// glued to a variable name they make it a name outside the table.  None of
+/// them is treated as a line break by any common line splitter.
+pub const INVISIBLE: [(&str, &str); 22] = [
+    ("\u{feff}", "bom"),
+    ("\u{200b}", "zwsp"),
+    ("\u{200c}", "zwnj"),
+    ("\u{200d}", "zwj"),
+    ("\u{2060}", "wj"),
+    ("\u{ad}", "shy"),
+    ("\u{a0}", "nbsp"),
+    ("\u{202f}", "nnbsp"),
+    ("\u{2007}", "figsp"),
+    ("\u{3000}", "idsp"),
+    ("\u{2003}", "emsp"),
+    ("\u{1680}", "ogham"),
+    (" ", "space"),
+    ("\t", "tab"),
+    ("  ", "spaces"),
+    ("\u{0}", "nul"),
+    ("\u{200e}", "lrm"),
+    ("\u{301}", "combining"),
+    ("\u{fe0f}", "vs16"),
+    ("\u{7f}", "del"),
+    ("\u{1}", "soh"),
+    ("\u{feff}\u{feff}", "bombom"),
+];
+
+/// Lines that show as nothing and hold no `=`.
+pub const INVISIBLE_LINES: [&str; 8] =
+    ["\u{feff}", "\u{200b}", "\u{2060}", "\u{a0}", "\u{feff}\u{feff}", "\u{feff} ", "\u{3000}", "\u{200d}\u{200b}"];
+
+/// Look-alikes of one ASCII character of a name: homoglyphs from other
+/// scripts, characters that a case mapping turns into it, near misses.
+fn lookalikes(c: char) -> &'static [&'static str] {
+    match c {
+        'A' => &["\u{410}", "\u{391}", "a", "\u{ff21}", "4"],
+        'B' => &["\u{412}", "\u{392}", "b", "8"],
+        'C' => &["\u{421}", "c", "\u{216d}"],
+        'D' => &["d", "\u{216e}"],
+        'E' => &["\u{415}", "\u{395}", "e", "3"],
+        'F' => &["f", "\u{3dc}"],
+        'G' => &["g", "\u{50c}"],
+        'H' => &["\u{41d}", "\u{397}", "h"],
+        'I' => &["\u{406}", "\u{399}", "\u{131}", "\u{130}", "i", "1", "l", "|"],
+        'K' => &["\u{41a}", "\u{212a}", "k", "\u{39a}"],
+        'L' => &["l", "1", "\u{216c}"],
+        'M' => &["\u{41c}", "\u{39c}", "m"],
+        'N' => &["\u{39d}", "n"],
+        'O' => &["\u{41e}", "\u{39f}", "0", "o"],
+        'P' => &["\u{420}", "\u{3a1}", "p"],
+        'Q' => &["q"],
+        'R' => &["r", "\u{280}"],
+        'S' => &["\u{405}", "\u{17f}", "s", "5", "$"],
+        'T' => &["\u{422}", "\u{3a4}", "t"],
+        'U' => &["u", "V"],
+        'V' => &["v", "U"],
+        'Z' => &["z", "\u{396}", "2"],
+        '_' => &["-", " ", "\u{ff3f}", "__", "", ".", "\u{2010}", "\u{a0}"],
+        _ => &[],
+    }
+}
+
+/// Every near miss of the 23 names built from invisible characters
+/// (prefix, suffix, after the first character, around each `_`) and from
+/// look-alike characters (one position replaced; whole name in lower case,
+/// full-width, or with a ligature).  Returns (name, flavour).
+pub fn near_miss_names() -> Vec<(String, String)> {
+    let mut out: Vec<(String, String)> = vec![];
+    for v in VARS.iter() {
+        let name = v.name;
+        for (inv, tag) in INVISIBLE {
+            out.push((format!("{inv}{name}"), format!("invisible_prefix/{tag}")));
+            out.push((format!("{name}{inv}"), format!("invisible_suffix/{tag}")));
+            out.push((format!("{}{inv}{}", &name[..1], &name[1..]), format!("invisible_infix/{tag}")));
+            if let Some(u) = name.find('_') {
+                out.push((format!("{}{inv}{}", &name[..u], &name[u..]), format!("invisible_infix/{tag}")));
+                out.push((format!("{}{inv}{}", &name[..u + 1], &name[u + 1..]), format!("invisible_infix/{tag}")));
+            }
+        }
+        for (k, c) in name.char_indices() {
+            for l in lookalikes(c) {
+                out.push((format!("{}{l}{}", &name[..k], &name[k + 1..]), "lookalike_char".to_string()));
+            }
+        }
+        out.push((name.to_lowercase(), "lookalike_whole".to_string()));
+        let fullwidth: String = name
+            .chars()
+            .map(|c| char::from_u32(c as u32 + 0xFEE0).unwrap_or(c))
+            .collect();
+        out.push((fullwidth, "lookalike_whole".to_string()));
+        let mut cap = name.to_lowercase();
+        cap[..1].make_ascii_uppercase();
+        out.push((cap, "lookalike_whole".to_string()));
+        if name.contains("FI") {
+            out.push((name.replace("FI", "\u{fb01}"), "lookalike_whole".to_string()));
+        }
+        out.push((format!("{name}{name}"), "lookalike_whole".to_string()));
+        out.push((name[..name.len() - 1].to_string(), "lookalike_whole".to_string()));
+        out.push((name[1..].to_string(), "lookalike_whole".to_string()));
+    }
+    // a near miss of one name may be another name (none is today): drop those
+    out.retain(|(n, _)| os::index_of(n).is_none() && !n.is_empty() && !n.contains('='));
+    out
+}
 
 /// Values that are not integers under any reasonable reading.
 pub const BAD_INTS: [&str; 12] = [
@@ -727,6 +1265,237 @@ pub fn big_stream(r: &mut Rng, n: usize) -> Stream {
     }
     let texts = entries.iter().map(|e| e.print()).collect();
     Stream::from_texts(entries, texts, None)
+}
+
+/// How the entries of a huge stream look.
+#[derive(Clone, Copy, Debug, PartialEq, Eq)]
+pub enum Shape {
+    /// the eleven required variables only, values of at most 8 bytes
+    /// (~130 bytes per entry: the most entries per byte)
+    Tiny,
+    /// compact entries of ~150-300 bytes (thousands of entries)
+    Small,
+    /// entries from the full value generator (~0.5-2 KiB)
+    Full,
+    /// compact entries and, at two places, one giant entry: a DESCRIPTION of
+    /// thousands of lines / one value of `giant` bytes
+    Giant(usize),
+}
+
+/// A well-formed stream of at least `target` bytes, built cheaply: a few
+/// template entries are repeated, each copy with a running number in
+/// PKGNAME and COMMENT (so that all entries differ and their lengths drift),
+/// every third copy ending in a multi-byte character right before the
+/// separator.
+pub fn huge_stream(r: &mut Rng, target: usize, shape: Shape) -> Stream {
+    let ntemplates = r.range(3, 6);
+    let templates: Vec<Entry> = (0..ntemplates)
+        .map(|k| match shape {
+            Shape::Full => model(r, k == 0, 1, 2),
+            Shape::Tiny => compact_model(r, 0, 1, false, true),
+            _ => compact_model(r, 1, 3, k % 2 == 0, false),
+        })
+        .collect();
+    let tail_mb = multibyte_char(r);
+    let giant_at = match shape {
+        Shape::Giant(_) => [target / 5, target / 5 + target / 2],
+        _ => [usize::MAX, usize::MAX],
+    };
+    let mut giants_done = 0;
+    let mut entries = vec![];
+    let mut texts: Vec<String> = vec![];
+    let mut total = 0usize;
+    let mut k = 0usize;
+    while total < target {
+        let mut e = templates[k % ntemplates].clone();
+        e.set(os::PKGNAME, Val::S(format!("pkg{}-{}.{}nb{}", k % 7, k, k % 13, k % 3)));
+        e.set(os::COMMENT, Val::S(format!("{}{} number {}", tail_mb, "x".repeat(k % 5), k)));
+        if k % 3 == 0 {
+            e.push(os::SUPERSEDES, &format!("old{k}{tail_mb}"));
+        }
+        if let Shape::Giant(g) = shape {
+            if giants_done < 2 && total >= giant_at[giants_done] {
+                if giants_done == 0 {
+                    // thousands of lines
+                    let mut lines = vec![];
+                    let mut sz = 0;
+                    let mut n = 0usize;
+                    while sz < g {
+                        let l = format!("line {n} of a very long description {tail_mb}{}", "z".repeat(n % 40));
+                        sz += l.len() + 13;
+                        lines.push(l);
+                        n += 1;
+                    }
+                    e.set(os::DESCRIPTION, Val::A(lines));
+                } else {
+                    // one huge value
+                    let w = [2usize, 3, 4][k % 3];
+                    e.set(os::HOMEPAGE, Val::S(aligned_text(r, w, k % 4, g)));
+                }
+                giants_done += 1;
+            }
+        }
+        let t = e.print();
+        total += t.len() + 1;
+        texts.push(t);
+        entries.push(e);
+        k += 1;
+    }
+    Stream::from_texts(entries, texts, None)
+}
+
+/// Where the malformed entry of a huge stream sits.
+#[derive(Clone, Copy, Debug, PartialEq, Eq)]
+pub enum Place {
+    Last,
+    BeforeLast,
+    /// the first entry that starts beyond this byte offset
+    Beyond(usize),
+    /// somewhere in the second half
+    SecondHalf,
+}
+
+/// A huge stream one of whose entries carries `fault`.
+pub fn huge_bad_stream(r: &mut Rng, target: usize, shape: Shape, place: Place, fault: Fault, pos: Pos) -> Stream {
+    let st = huge_stream(r, target, shape);
+    let n = st.entries.len();
+    let j = match place {
+        Place::Last => n - 1,
+        Place::BeforeLast => n.saturating_sub(2),
+        Place::Beyond(off) => st.starts.partition_point(|&s| s <= off).min(n - 1),
+        Place::SecondHalf => (n / 2 + r.below((n / 2).max(1))).min(n - 1),
+    };
+    let mut texts = st.texts;
+    let f = inject(r, &canonical_lines(&st.entries[j]), &fault, pos);
+    texts[j] = render(&f.lines, true);
+    Stream::from_texts(st.entries, texts, Some((j, fault)))
+}
+
+/// Sizes at which an implementation might switch strategy.
+pub const THRESHOLDS: [usize; 14] = [
+    4096, 8192, 16_384, 32_768, 65_536, 131_072, 262_144, 524_288, 1_048_576, 10_000, 50_000, 100_000, 500_000,
+    1_000_000,
+];
+
+/// Partitions of a huge stream into few, large chunks: (family, cuts).
+/// `bad_at` = (start, end) of a malformed entry, if any, to aim cuts at.
+pub fn large_partitions(r: &mut Rng, st: &Stream, random: usize) -> Vec<(&'static str, Vec<usize>)> {
+    let len = st.len();
+    let mut out: Vec<(&'static str, Vec<usize>)> = vec![("one_call", vec![])];
+    let ts: Vec<usize> = THRESHOLDS.iter().copied().filter(|&t| t + 2 < len).collect();
+    // the entry boundary at or after a byte offset
+    let boundary_after = |off: usize| -> usize {
+        let k = st.starts.partition_point(|&s| s < off);
+        st.starts[k.min(st.starts.len() - 1)]
+    };
+    // [k, rest] for k around every threshold, and on/next to the entry boundary after it
+    for &t in &ts {
+        for d in [-2i64, -1, 0, 1, 2] {
+            out.push(("big_head_at_limit", vec![(t as i64 + d) as usize]));
+        }
+        let b = boundary_after(t);
+        for c in [b.saturating_sub(2), b.saturating_sub(1), b, b + 1] {
+            if c > 0 && c < len {
+                out.push(("big_head_at_boundary", vec![c]));
+            }
+        }
+    }
+    // a big block, then a short tail
+    let last = st.starts[st.starts.len() - 2];
+    let prev = if st.starts.len() >= 3 { st.starts[st.starts.len() - 3] } else { 0 };
+    for t in [1usize, 2, 3, 7, (len - last) / 2, len - last, len - last + 1, len - (last + prev) / 2, 1000, 5000, 40_000, len / 3] {
+        if t > 0 && t < len {
+            out.push(("big_head_short_tail", vec![len - t]));
+        }
+    }
+    // fixed chunk sizes
+    for size in [
+        1000usize, 4096, 8192, 16_384, 32_768, 65_536, 98_304, 131_072, 200_000, 262_144, 65_535, 65_537, 131_071,
+        131_073, 524_288,
+    ] {
+        if size < len {
+            out.push(("fixed_big", fixed_cuts(len, size)));
+        }
+    }
+    // a big block, then many small ones (for the next ~48 KiB), then the rest
+    for &t in ts.iter().filter(|&&t| t >= 16_384) {
+        let mut c = t + r.below(600);
+        let mut v = vec![c];
+        let stop = (c + 48 * 1024).min(len);
+        loop {
+            c += match r.below(4) {
+                0 => r.range(1, 8),
+                1 => r.range(1, 200),
+                _ => r.range(200, 3000),
+            };
+            if c >= stop {
+                break;
+            }
+            v.push(c);
+        }
+        if stop < len && r.chance(1, 2) {
+            v.push(stop);
+        }
+        out.push(("big_then_small", v));
+    }
+    // small ones, then a big block (and the rest)
+    for &t in ts.iter().filter(|&&t| t >= 16_384) {
+        let mut v = vec![];
+        let mut c = 0;
+        for _ in 0..r.range(1, 12) {
+            c += r.range(1, 400);
+            v.push(c);
+        }
+        let c2 = c + t + r.below(3);
+        if c2 < len {
+            v.push(c2);
+        }
+        out.push(("small_then_big", v));
+    }
+    // big and small alternating
+    for &t in ts.iter().filter(|&&t| t >= 32_768) {
+        let mut v = vec![];
+        let mut c = 0;
+        loop {
+            c += t + r.below(5);
+            if c >= len {
+                break;
+            }
+            v.push(c);
+            c += r.range(1, 300);
+            if c >= len {
+                break;
+            }
+            v.push(c);
+        }
+        out.push(("alternating_big_small", v));
+    }
+    // seeded: chunk lengths from a mixture of threshold-sized, arbitrary and tiny
+    for k in 0..random {
+        let mut v = vec![];
+        let mut c = 0usize;
+        loop {
+            c += match r.below(6) {
+                0 | 1 if !ts.is_empty() => {
+                    let t = *r.pick(&ts);
+                    (t + r.below(9)).saturating_sub(4)
+                }
+                2 => r.range(1, 64),
+                3 => r.range(1, 5000),
+                _ => r.range(1, (len / 2).max(2)),
+            };
+            if c >= len {
+                break;
+            }
+            v.push(c);
+        }
+        if k % 3 == 0 {
+            out.push(("zero_length_big", with_empty_chunks(r, len, &v)));
+        } else {
+            out.push(("random_big", v));
+        }
+    }
+    out
 }
 
 /// The canonical lines of an entry as generator lines.
